@@ -320,6 +320,16 @@ theorem edge_ifElse (s : St) (tc ta tb t : STy) (cc ca cb : Id) (h : typeIfElse 
   simp only [edgeOK, hc, ha, hb, List.any_eq_true]
   exact ⟨tc, mem_scalarOf tc, ta, mem_scalarOf ta, tb, mem_scalarOf tb, ifElse_edge tc ta tb t h⟩
 
+theorem edge_random (s : St) (t r : STy) (h : typeRandom t = .ok r false) :
+    edgeOK (tyAtS s) (fnTyS s) (.random (.scalar r.mirName)) = true := by
+  unfold typeRandom at h
+  split at h
+  · rename_i hm
+    simp at h; subst h
+    simp only [edgeOK, List.any_eq_true]
+    exact ⟨t, mem_scalarOf t, by simp [STy.isSec, hm]⟩
+  · simp at h
+
 theorem edge_invert (s : St) (ta t : STy) (ca : Id) (h : typeInvert ta = .ok t false)
     (ha : tyAtS s ca = some (.scalar ta.mirName)) :
     edgeOK (tyAtS s) (fnTyS s) (.unary "Not" ca (.scalar t.mirName)) = true := by
@@ -1093,7 +1103,7 @@ theorem tx_ifElse (c a b) : GoalT regs frames s0 (.ifElse c a b) := by
 theorem tx_invert (a) : GoalT regs frames s0 (.invert a) := by
   tx_case [scalarResult_typed] [edge_invert, mentions_unary]
 theorem tx_random (t) : GoalT regs frames s0 (.random t) := by
-  tx_case [scalarResult_typed] [mentions_random, edgeOK]
+  tx_case [scalarResult_typed] [mentions_random, edge_random]
 theorem tx_nop : GoalT regs frames s0 .nop := by
   tx_case [] []
 theorem tx_party (nm) : GoalT regs frames s0 (.party nm) := by
